@@ -223,11 +223,9 @@ func (t unescapeMapping) Transform(dst, src []byte, atEOF bool) (nDst, nSrc int,
 			if n != idx {
 				return nDst, nSrc, transform.ErrShortDst
 			}
-			if n == 0 {
-				n++
-			}
+			// nSrc now points at the backslash, the hex digits follow it.
 			n = copy(dst[nDst:], []byte{
-				unhex(src[nSrc+n])<<4 | unhex(src[nSrc+n+1]),
+				unhex(src[nSrc+1])<<4 | unhex(src[nSrc+2]),
 			})
 			nDst += n
 			nSrc += 3
